@@ -62,9 +62,12 @@ def v1_counts(b):
 # ------------------------------------------------------------------ synthetic streams
 
 def mk_tzif(trans, types, isstd=None, isgmt=None, leaps=(), version=b"\0", shared_abbr=False,
-            counts=None, tail=b""):
-    """version-1 TZif block.  trans: [(utc, type index)], types: [(off, isdst, abbr)]"""
-    if shared_abbr:
+            counts=None, tail=b"", abbr_table=None):
+    """version-1 TZif block.  trans: [(utc, type index)], types: [(off, isdst, abbr)];
+    abbr_table=(table bytes, [index per type]) overrides the abbreviation layout (zic-style sharing)"""
+    if abbr_table is not None:
+        table, idx = abbr_table
+    elif shared_abbr:
         table, idx = b"", []
         for _, _, a in types:
             a = a.encode() + b"\0"
@@ -154,6 +157,45 @@ def synthetic_shapes():
         [(T0, 1), (T0 + 100 * d, 2), (T0 + 200 * d, 0), (T0 + 300 * d, 1)],
         [(0, 0, "GMT"), (H, 1, "BST"), (H, 0, "BST")], isstd=[1, 0, 1], isgmt=[1, 0],
         leaps=[(78796800, 1), (94694401, 2)], shared_abbr=True, tail=b"TZif2 trailing v2 data")
+    # abbreviation tables beyond 127 bytes (tt_abbrind is an UNSIGNED byte; /repo 3b2dec8) ----------
+    d30 = 30 * d
+    S["abbr_table_200_bytes_40_types"] = mk_tzif(
+        [(T0 + i * d30, i) for i in range(40)], [(i * 900, i % 3 == 1, "A%03d" % i) for i in range(40)])
+    S["abbr_table_250_bytes_50_types"] = mk_tzif(
+        [(T0 + i * d30, (i * 7) % 50) for i in range(60)], [(-36000 + i * 1800, i % 2, "Z%03d" % i) for i in range(50)])
+    S["abbr_table_256_bytes_last_index_255"] = mk_tzif(
+        [(T0 + i * d30, i) for i in range(52)],
+        [(i * 600, 0, "B%03d" % i) for i in range(51)] + [(3600, 1, "")],          # 51*5 = 255, then "" at index 255
+    )
+    S["abbr_index_128_boundary"] = mk_tzif(
+        [(T0 + i * d30, i) for i in range(30)], [(i * 1200, i % 2, "C%02d" % i) for i in range(33)])   # starts 0,4,…,128
+    # zic-style sharing: HST is a suffix of AHST, several types point into one string
+    tbl = b"LMT\0AHST\0HDT\0HWT\0HPT\0"
+    S["abbr_suffix_shared_AHST_HST"] = mk_tzif(
+        [(T0, 1), (T0 + 100 * d, 2), (T0 + 200 * d, 3), (T0 + 300 * d, 4), (T0 + 400 * d, 5), (T0 + 500 * d, 2)],
+        [(-37886, 0, "LMT"), (-36000, 0, "AHST"), (-36000, 0, "HST"), (-32400, 1, "HDT"), (-32400, 1, "HWT"), (-32400, 1, "HPT")],
+        abbr_table=(tbl, [0, 4, 5, 9, 13, 17]))
+    big = b"".join(b"L%03d\0" % i for i in range(45))                                    # 225 bytes, suffix pointers beyond 127
+    S["abbr_suffix_shared_beyond_127"] = mk_tzif(
+        [(T0 + i * d30, i) for i in range(45)],
+        [(i * 300, i % 2, ("L%03d" % i)[(i % 3):]) for i in range(45)],
+        abbr_table=(big, [i * 5 + (i % 3) for i in range(45)]))
+    # more than 128 types: transition TYPE INDICES, isstd/isgmt positions and abbreviation indices >= 128
+    # (all three one-byte tables are unsigned in tzfile(5); seed C06E)
+    S["types_200_solar_indices_ge_128"] = mk_tzif(
+        [(T0 + i * 7 * d, (i * 37) % 200) for i in range(230)],
+        [(15000 + i * 8, 0, "LMT") for i in range(200)],
+        isstd=[i % 2 for i in range(200)], isgmt=[(i // 3) % 2 for i in range(200)],
+        abbr_table=(b"LMT\0", [0] * 200))
+    t256 = (b"AB\0" * 85) + b"\0"                                                    # 256 bytes
+    i256 = [(i * 3) % 255 if i < 255 else 255 for i in range(256)]
+    S["types_256_all_used_abbrind_255"] = mk_tzif(
+        [(T0 + i * 11 * d, 255 - i) for i in range(256)],
+        [(-43200 + i * 300, i % 2, "AB" if k < 255 else "") for i, k in zip(range(256), i256)],
+        isstd=[1] * 256, isgmt=[i % 2 for i in range(256)], abbr_table=(t256, i256))
+    S["types_129_last_index_128"] = mk_tzif(
+        [(T0 + i * d30, i) for i in range(129)], [(i * 60, 0, "T") for i in range(129)],
+        abbr_table=(b"T\0", [0] * 129), isstd=[0] * 128 + [1], isgmt=[0] * 128 + [1])
     S["forward_larger_than_spacing"] = mk_tzif(
         [(T0, 1), (T0 + 1800, 2), (T0 + 100 * d, 0), (T0 + 200 * d, 1)],
         [(0, 0, "AAA"), (2 * H, 0, "BBB"), (5 * H, 0, "CCC")])
@@ -588,3 +630,59 @@ def near_year_edge(z, years):
                 if abs(ts(x) - ts(datetime.datetime(yy, 1, 1))) <= m:
                     return True
     return False
+
+
+# ------------------------------------------------------------------ known-finding discipline (review F1/F2/F8)
+
+def range_case_fields(z, x, wall=False):
+    """per-instant facts for the D-C05r / D-C04y matchers; x = UTC instant (or wall second when wall=True)"""
+    std = int(z._std_offset.total_seconds()); dst = int(z._dst_offset.total_seconds())
+    has = bool(z.hasdst)
+    sav = (dst - std) if has else 0
+    m = max(abs(std), abs(dst)) + abs(sav)
+    dt = EPOCH + TD(seconds=x)
+    d_ny = min(abs(x - ts(datetime.datetime(y, 1, 1))) for y in (dt.year, dt.year + 1))
+    d_tr = None
+    if has:
+        cands = []
+        for y in (dt.year - 1, dt.year, dt.year + 1):
+            if 1 < y < 9999:
+                tr = z.transitions(y)
+                if tr is not None:
+                    for q in tr:
+                        n = ts(q)
+                        cands += ([n, n + sav, n - sav] if wall else [n - std, n - dst])
+        if cands:
+            d_tr = min(abs(x - c) for c in cands)
+    return {"hasdst": has, "saving": sav, "near_newyear": bool(d_ny <= m),
+            "near_transition": bool(d_tr is not None and d_tr <= 2 * abs(sav) + 1)}
+
+
+def k_c05r(v):
+    c = v["case"]
+    return (c.get("kind") == "range" and c.get("hasdst") is True and c.get("saving", 0) < 0
+            and c.get("near_transition") is True and c.get("model_same") is True)
+
+
+def k_c04y(v):
+    c = v["case"]
+    return (c.get("kind") == "range" and c.get("hasdst") is True and c.get("saving", 0) > 0
+            and c.get("near_year_edge") is True and c.get("near_newyear") is True and c.get("model_same") is True)
+
+
+def report(ctx, known, what, case, detail=None, keep=3):
+    """ctx.violation, but failures matching a KNOWN class are stored at most `keep` times per class
+    (they are still counted), so that the 200-entry buffer stays available for unknown failures"""
+    v = {"what": what, "case": case, "detail": detail}
+    for kid, pred in known.items():
+        try:
+            hit = pred(v)
+        except Exception:
+            hit = False
+        if hit:
+            ctx.count("known_class:" + kid)
+            if ctx.hist["known_class:" + kid] > keep:
+                ctx.count("oracle_failures")
+                return
+            break
+    ctx.violation(what, case, detail)
